@@ -16,6 +16,9 @@ CLAIMED = {
  "C14": dict(cat="model_checking", engine="tlc+replay", technique="TLC enumeration of all handler programs in CifWalk.tla (traversal properties checked on each) + replay of every program through cif_walk + TLC acceptor for differing logs",
      text="CifWalk.tla mirrors cif_walk / walk_container / walk_loops / walk_loop / walk_packet one to one over a constant CIF tree with a scripted handler. TLC enumerates every handler program (continue, skip-current, skip-siblings, end, error codes 10 and 1 at every callback) on nine small shapes and checks AtMostOnce, ContinueVisitsAll, StopIsFinal, SkipSuppressesDescendants, SkipSiblingsSuppressesLater, NothingElseSuppressed on each; every program is then run through the real cif_walk with handle queries inside each callback and the callback log and return code compared; a differing log is re-validated by TLC in the module's acceptor mode, which leaves open exactly what the property leaves open.",
      note="Shapes are bounded (<= 2 blocks, frames nested to depth 2, <= 2 loops, <= 3 packets, <= 2 items); sibling orders are learned from an all-continue walk of the same CIF.", ref="4 C14"),
+ "C15": dict(cat="model_checking", engine="tlc+replay", technique="TLC enumeration of all handler programs in CifParseEvents.tla (skip-depth balance and callback/storage properties checked on each) + replay through cif_parse in storing and syntax-only mode",
+     text="CifParseEvents.tla transcribes the handler protocol of parse_cif / parse_container / parse_item / parse_loop / parse_loop_packets including the skip_depth counter. TLC enumerates every handler program on eight small documents and checks Balanced, ContinueStoresAll, StopIsFinal, StoredWasAccepted, AcceptedIsStored, SkippedAreSilentAndUnstored; every program is replayed through cif_parse twice (target CIF / syntax-only) and the callback log, the return code, the equality of the two modes' sequences and the stored content (SQL projection) are compared with the prediction.",
+     note="Documents are small and plainly laid out; handler answers {0,-1,-2,-3,10}; in quick tier at most 5000 programs per document are replayed (seeded sample).", ref="4 C15"),
  "C20": dict(cat="model_checking", engine="tlc-trace", technique="TLC evaluation of CifErrlist.tla on the table observed from the library (exhaustive over the codes of cif.h)",
      text="The result codes are read from cif.h at check time, the table is dumped from the library built from /repo, and TLC checks for every code: inside the table, non-empty, describes the condition (keyword alternatives), not shared with another code. Exhaustive over a finite set.",
      note="The keyword alternatives in CifErrlist.tla define what 'describes that very condition' means.", ref="4 C20"),
